@@ -119,6 +119,13 @@ def cli_routes(data, allow_plugins=True, subprocess_too=False, env_kwargs=None):
             else:
                 so, se, sx = clirun.run_sub(['-f', f, '-E'] + P, env_extra={'PYTHONIOENCODING': 'ascii'})
             out.append(('-f with a stdout that takes ASCII only', doc_of(so) if sx == 0 else 'exit %d: %s' % (sx, se[-200:])))
+            # ... and with stdout on a TERMINAL of 80 columns (what an operator at a console sees is the same document)
+            for envx, what in (({}, 'a terminal'), ({'CLICOLOR_FORCE': '1', 'TERM': 'xterm-256color'}, 'a terminal that asks for colour')):
+                if env_kwargs is None:
+                    so, sx = common.run_on_pty([common.PY, '-W', 'ignore', clirun.PELTOOL, '-f', f, '-E'] + P, env=dict(common.child_env(), **envx))
+                else:
+                    so, _, sx = apel.fresh_cli(env_kwargs, ['-f', f, '-E'] + P, env_extra=envx, on_pty=True)
+                out.append(('-f with stdout on %s' % what, doc_of(so) if sx == 0 else 'exit %s' % sx))
             if env_kwargs is not None:
                 so, se, sx = apel.fresh_cli(env_kwargs, ['-f', f, '-E'] + P, optimise=True)
             else:
